@@ -894,6 +894,7 @@ func ruleLRPC(p *Program, r *Reporter) {
 				}
 				n++
 				nbad := 0
+				narrowed := ""
 				seenK := map[string]bool{}
 				for _, h := range heldAtSite(fn, c, map[*ssa.Function]bool{}, 0) {
 					for _, a := range handlerLocks[h.k.field] {
@@ -904,13 +905,22 @@ func ruleLRPC(p *Program, r *Reporter) {
 						if seenK[construct] {
 							continue
 						}
+						// A flag that is true throughout the call and false wherever the handler takes
+						// the lock does NOT discharge this: the handler tests the flag and takes the
+						// lock in two steps, so a handler that saw the flag clear just before it was
+						// armed still goes on to wait for the lock (tried, refuted by the reproducer:
+						// DESIGN.md section 7a). lrpcFlagProtects is kept for the evidence text only.
 						if flag := lrpcFlagProtects(p, la, fn, c, h.k.field, a.whenFalse); flag != nil {
-							continue // the handler only takes the lock while flag is false; it is true throughout this call
+							narrowed = flag.Name()
 						}
 						seenK[construct] = true
 						nbad++
+						extra := ""
+						if narrowed != "" {
+							extra = " (the window is narrow: " + narrowed + " is set before the call and the handler only takes the lock when it found it clear - but it tests and locks in two steps)"
+						}
 						r.Ob(id, funcName(fn), construct, c.Pos(), false, true,
-							fmt.Sprintf("%s (%s) is held while waiting for the reply, and the %q notification handler acquires it (%s at %s): a notification that arrives before the reply blocks the read loop, which then never delivers the reply", h.k, h.how, a.via, string(a.mode), p.Pos(a.pos)))
+							fmt.Sprintf("%s (%s) is held while waiting for the reply, and the %q notification handler acquires it (%s at %s): a notification that arrives before the reply blocks the read loop, which then never delivers the reply%s", h.k, h.how, a.via, string(a.mode), p.Pos(a.pos), extra))
 					}
 				}
 				if nbad == 0 {
@@ -2566,7 +2576,8 @@ func flagArmedAt(p *Program, fn *ssa.Function, c *ssa.Call, flag *types.Var) boo
 		return ok && k.Value != nil && k.Value.Kind() == constant.Bool && constant.BoolVal(k.Value)
 	}
 	clears := map[*ssa.Function]bool{}
-	var arming []*ssa.Store
+	var arming []ssa.Instruction
+	setsTrue := map[*ssa.Function]bool{}
 	for _, g := range p.srcFuncs {
 		if pkgOf(g) != pkgOf(fn) {
 			continue
@@ -2583,8 +2594,21 @@ func flagArmedAt(p *Program, fn *ssa.Function, c *ssa.Call, flag *types.Var) boo
 				}
 				if !isTrue(s.Val) {
 					clears[g] = true
-				} else if g == fn {
-					arming = append(arming, s)
+				} else {
+					setsTrue[g] = true
+					if g == fn {
+						arming = append(arming, s)
+					}
+				}
+			}
+		}
+	}
+	// a helper that sets the flag (and never clears it) arms it where it is called
+	for _, b := range fn.Blocks {
+		for _, ins := range b.Instrs {
+			if ci, ok := ins.(*ssa.Call); ok {
+				if sc := ci.Call.StaticCallee(); sc != nil && sc != fn && setsTrue[sc] && !clears[sc] && sc.Parent() == nil && straightLine(sc) {
+					arming = append(arming, ci)
 				}
 			}
 		}
@@ -2609,6 +2633,9 @@ func flagArmedAt(p *Program, fn *ssa.Function, c *ssa.Call, flag *types.Var) boo
 	}
 	fc := newFlowCtx(fn)
 	for _, s := range arming {
+		if s == ssa.Instruction(c) {
+			continue
+		}
 		if !(s.Block() == c.Block() && fc.instrIdx[s] < fc.instrIdx[c] || s.Block() != c.Block() && s.Block().Dominates(c.Block())) {
 			continue
 		}
@@ -2680,4 +2707,215 @@ func ruleDEFERARM(p *Program, r *Reporter) {
 	if n < 1 {
 		r.Anchor(id, "monitor(): blocking monitor RPC")
 	}
+}
+
+// ---------------------------------------------------------------------------
+// DEFER-DISARM — monitor() does not leave the deferral armed behind a failure:
+// from the store that arms deferUpdates, every path to a return passes a call
+// that clears it (applyDeferredUpdates directly or through a helper/closure)
+// or re-enters monitor() (the method fallback) - except on paths on which a
+// reconnect is in progress (the parameter is true: a failed reconnect is
+// retried with the deferral re-armed) or the connection is gone
+// (err == rpc2.ErrShutdown: the disconnect handler takes over).
+
+func ruleDEFERDISARM(p *Program, r *Reporter) {
+	const id = "DEFER-DISARM"
+	mon := p.Fn("client", "ovsdbClient", "monitor")
+	flag := p.Field("client", "database", "deferUpdates")
+	if mon == nil || flag == nil {
+		r.Anchor(id, "client.(*ovsdbClient).monitor / database.deferUpdates")
+		return
+	}
+	isTrue := func(v ssa.Value) bool {
+		k, ok := v.(*ssa.Const)
+		return ok && k.Value != nil && k.Value.Kind() == constant.Bool && constant.BoolVal(k.Value)
+	}
+	// functions of the package that may clear the flag (transitively)
+	clears := map[*ssa.Function]bool{}
+	for _, g := range p.srcFuncs {
+		if pkgOf(g) != "client" {
+			continue
+		}
+		for _, b := range g.Blocks {
+			for _, ins := range b.Instrs {
+				if s, ok := ins.(*ssa.Store); ok {
+					if fa, ok := s.Addr.(*ssa.FieldAddr); ok && fieldOfAddr(fa) == flag && !isTrue(s.Val) && !baseIsLocalAlloc(fa.X) {
+						clears[g] = true
+					}
+				}
+			}
+		}
+	}
+	for changed := true; changed; {
+		changed = false
+		for _, g := range p.srcFuncs {
+			if clears[g] || pkgOf(g) != "client" || g == mon {
+				continue
+			}
+			for _, b := range g.Blocks {
+				for _, ins := range b.Instrs {
+					if ci, ok := ins.(ssa.CallInstruction); ok {
+						fns, _ := p.Callees(ci)
+						for _, f := range fns {
+							if clears[f] {
+								clears[g] = true
+								changed = true
+							}
+						}
+					}
+				}
+			}
+		}
+	}
+	var reconn *ssa.Parameter
+	for _, prm := range mon.Params {
+		if prm.Name() == "reconnecting" {
+			reconn = prm
+		}
+	}
+	isShutdownTest := func(c ssa.Value) bool {
+		bo, ok := c.(*ssa.BinOp)
+		if !ok || bo.Op != token.EQL {
+			return false
+		}
+		for _, side := range []ssa.Value{bo.X, bo.Y} {
+			v := side
+			if mi, ok := v.(*ssa.MakeInterface); ok {
+				v = mi.X
+			}
+			if ld, ok := v.(*ssa.UnOp); ok {
+				if g, ok := ld.X.(*ssa.Global); ok && g.Name() == "ErrShutdown" {
+					return true
+				}
+			}
+		}
+		return false
+	}
+	// helpers that set the flag unconditionally and never clear it
+	armsHelper := map[*ssa.Function]bool{}
+	for _, g := range p.srcFuncs {
+		if pkgOf(g) != "client" || g.Parent() != nil || clears[g] || !straightLine(g) {
+			continue
+		}
+		for _, b := range g.Blocks {
+			for _, ins := range b.Instrs {
+				if s, ok := ins.(*ssa.Store); ok {
+					if fa, ok := s.Addr.(*ssa.FieldAddr); ok && fieldOfAddr(fa) == flag && isTrue(s.Val) && !baseIsLocalAlloc(fa.X) {
+						armsHelper[g] = true
+					}
+				}
+			}
+		}
+	}
+	n := 0
+	for _, b := range mon.Blocks {
+		for i, ins := range b.Instrs {
+			var s ssa.Instruction
+			switch x := ins.(type) {
+			case *ssa.Store:
+				if fa, ok := x.Addr.(*ssa.FieldAddr); ok && fieldOfAddr(fa) == flag && isTrue(x.Val) {
+					s = x
+				}
+			case *ssa.Call:
+				if sc := x.Call.StaticCallee(); sc != nil && armsHelper[sc] {
+					s = x
+				}
+			}
+			if s == nil {
+				continue
+			}
+			n++
+			// search for a return reachable without a clearing event
+			type item struct {
+				b    *ssa.BasicBlock
+				from int
+			}
+			seen := map[*ssa.BasicBlock]bool{}
+			work := []item{{b, i + 1}}
+			var leak *ssa.Return
+			for len(work) > 0 && leak == nil {
+				it := work[len(work)-1]
+				work = work[:len(work)-1]
+				if it.from == 0 {
+					if seen[it.b] {
+						continue
+					}
+					seen[it.b] = true
+				}
+				cleared := false
+				for _, x := range it.b.Instrs[it.from:] {
+					if ci, ok := x.(ssa.CallInstruction); ok {
+						if _, isGo := x.(*ssa.Go); !isGo {
+							fns, _ := p.Callees(ci)
+							for _, f := range fns {
+								if clears[f] || f == mon {
+									cleared = true
+								}
+							}
+						}
+					}
+					if st, ok := x.(*ssa.Store); ok {
+						if fa2, ok := st.Addr.(*ssa.FieldAddr); ok && fieldOfAddr(fa2) == flag && !isTrue(st.Val) {
+							cleared = true
+						}
+					}
+					if cleared {
+						break
+					}
+					if ret, ok := x.(*ssa.Return); ok {
+						leak = ret
+					}
+				}
+				if cleared || leak != nil {
+					continue
+				}
+				succs := it.b.Succs
+				if iff, ok := it.b.Instrs[len(it.b.Instrs)-1].(*ssa.If); ok && len(succs) == 2 {
+					c, truth := normFact(edgeFact{iff.Cond, true, it.b})
+					switch {
+					case reconn != nil && c == ssa.Value(reconn):
+						// follow only the edge on which reconnecting is false
+						if truth {
+							succs = succs[1:]
+						} else {
+							succs = succs[:1]
+						}
+					case isShutdownTest(c):
+						// the connection is gone on the equal edge
+						if truth {
+							succs = succs[1:]
+						} else {
+							succs = succs[:1]
+						}
+					}
+				}
+				for _, sb := range succs {
+					work = append(work, item{sb, 0})
+				}
+			}
+			ok2 := leak == nil
+			pos := s.Pos()
+			if leak != nil {
+				pos = leak.Pos()
+			}
+			r.Ob(id, funcName(mon), "no return leaves the deferral armed", pos, ok2, true,
+				ifs(ok2, "every return after the arming passes a call that clears deferUpdates (or happens during a reconnect / after the connection was lost)", "monitor() can return with deferUpdates still set although no reconnect is in progress: every later notification of the monitors already established is buffered and never applied"))
+		}
+	}
+	if n < 1 {
+		r.Anchor(id, "monitor(): store of true to deferUpdates")
+	}
+}
+
+// straightLine: the function has no branch (every instruction runs on every call).
+func straightLine(fn *ssa.Function) bool {
+	for _, b := range fn.Blocks {
+		if isRecoverBlock(b) {
+			continue
+		}
+		if len(b.Succs) > 1 {
+			return false
+		}
+	}
+	return len(fn.Blocks) > 0
 }
